@@ -427,18 +427,16 @@ Proof.
   - right. apply IH; exact H.
 Qed.
 
-(* generic: the meaning of the decider for one initialiser  slot := W(s) *)
-Lemma wrapper_init_ok_sound : forall u slot w s, wrapper_init_ok u (slot, EWrap w (EId s)) = true ->
-  exists tb r, In (w, tb) (u_wrappers u) /\ slot_role s = Some r /\ slot_role slot = Some r /\ tb <> [] /\
+(* generic: the meaning of the decider for one initialiser  slot := W(e) *)
+Lemma wrapper_init_ok_sound : forall u slot w e, wrapper_init_ok u (slot, EWrap w e) = true ->
+  exists tb r, In (w, tb) (u_wrappers u) /\ slot_role slot = Some r /\ tb <> [] /\
     forall member calls, In (member, calls) tb -> calls <> [] /\ forall f, In f calls -> f = role_function r.
 Proof.
-  intros u slot w s H. simpl in H.
+  intros u slot w e H. simpl in H.
   destruct (find_wrapper (u_wrappers u) w) as [tb|] eqn:Ew; [|discriminate].
-  destruct (slot_role s) as [r|] eqn:Es; [|discriminate].
-  destruct (slot_role slot) as [r'|] eqn:Er; [|discriminate].
-  apply andb_true_iff in H as [H12 H3]. apply andb_true_iff in H12 as [H1 H2].
-  apply kind_eqb_eq in H1. subst r'.
-  exists tb, r. split; [apply find_wrapper_In; exact Ew|]. split; [reflexivity|]. split; [reflexivity|]. split.
+  destruct (slot_role slot) as [r|] eqn:Er; [|discriminate].
+  apply andb_true_iff in H as [H2 H3].
+  exists tb, r. split; [apply find_wrapper_In; exact Ew|]. split; [reflexivity|]. split.
   - destruct tb; [discriminate | discriminate].
   - intros member calls Hin. rewrite forallb_forall in H3. specialize (H3 (member, calls) Hin). simpl in H3.
     apply andb_true_iff in H3 as [Hne Hall]. split.
@@ -452,15 +450,12 @@ Proof. vm_compute. reflexivity. Qed.
 Theorem wrappers_forward_to_own_role_proof : forall c slot w e,
   find_class (t_classes chain_gen) (t_impl_class chain_gen) = Some c ->
   In (slot, EWrap w e) (c_inits c) ->
-  exists s tb r, e = EId s /\ In (w, tb) (u_wrappers uses_gen) /\ slot_role s = Some r /\ slot_role slot = Some r /\
-    tb <> [] /\
+  exists tb r, In (w, tb) (u_wrappers uses_gen) /\ slot_role slot = Some r /\ tb <> [] /\
     forall member calls, In (member, calls) tb -> calls <> [] /\ forall f, In f calls -> f = role_function r.
 Proof.
   intros c slot w e Hc Hin. pose proof wrappers_ok_gen as H. unfold wrappers_ok in H. rewrite Hc in H.
   rewrite forallb_forall in H. specialize (H (slot, EWrap w e) Hin).
-  destruct e as [s| | | | | | | ]; try (simpl in H; discriminate).
-  destruct (wrapper_init_ok_sound uses_gen slot w s H) as [tb [r [H1 [H2 [H3 [H4 H5]]]]]].
-  exists s, tb, r. repeat split; auto; apply (H5 member calls); assumption.
+  exact (wrapper_init_ok_sound uses_gen slot w e H).
 Qed.
 
 Lemma derefs_ok_gen : derefs_ok uses_gen = true.
@@ -487,14 +482,14 @@ Theorem uses_refuted_before_F13_proof :
     md_name m = "ManifoldSculpting" /\
     declared (uses_before_F13 uses_gen) m = [Feat] /\
     ~ incl (uses chain_gen (uses_before_F13 uses_gen) m) (declared (uses_before_F13 uses_gen) m) /\
-    run_method chain_gen (uses_before_F13 uses_gen) m [Feat] ByRange = TouchesDummy "plain_distance" Dist.
+    exists slot, run_method chain_gen (uses_before_F13 uses_gen) m [Feat] ByRange = TouchesDummy slot Dist.
 Proof.
   assert (H : exists m, find_method (u_methods (uses_before_F13 uses_gen)) "ManifoldSculpting" = Some m /\
       declared (uses_before_F13 uses_gen) m = [Feat] /\
       kinds_incl (uses chain_gen (uses_before_F13 uses_gen) m) (declared (uses_before_F13 uses_gen) m) = false /\
-      run_method chain_gen (uses_before_F13 uses_gen) m [Feat] ByRange = TouchesDummy "plain_distance" Dist).
+      exists slot, run_method chain_gen (uses_before_F13 uses_gen) m [Feat] ByRange = TouchesDummy slot Dist).
   { eexists. split; [vm_compute; reflexivity|]. split; [vm_compute; reflexivity|].
-    split; vm_compute; reflexivity. }
+    split; [vm_compute; reflexivity|]. eexists. vm_compute. reflexivity. }
   destruct H as [m [Hf [Hd [Hi Hr]]]]. exists m.
   destruct (find_method_In _ _ _ Hf) as [Hin Hn].
   split; [exact Hin|]. split; [exact Hn|]. split; [exact Hd|]. split; [|exact Hr].
@@ -502,4 +497,85 @@ Proof.
                                        (declared (uses_before_F13 uses_gen) m) = true).
   { apply kinds_incl_iff. exact Hincl. }
   rewrite Hi in Ht. discriminate.
+Qed.
+
+(* ------------------------------------------------------------------ non-vacuity witnesses (searched, not positional:
+   they survive a reordering of the method table or of the initialiser list) *)
+Definition is_nil {A} (l : list A) : bool := match l with [] => true | _ => false end.
+
+Lemma kinds_incl_false : forall a b, kinds_incl a b = false -> exists k, In k a /\ ~ In k b.
+Proof.
+  induction a as [|x r IH]; intros b H; simpl in H; [discriminate|].
+  destruct (kmem x b) eqn:E; simpl in H.
+  - destruct (IH b H) as [k [Hk Hn]]. exists k. split; [right; exact Hk | exact Hn].
+  - exists x. split; [left; reflexivity|]. intro Hin. apply kmem_In in Hin. rewrite Hin in E. discriminate.
+Qed.
+
+Lemma full_order_valid : valid_chain [Kern; Dist; Feat] ByRange.
+Proof. split; [repeat constructor; simpl; intuition discriminate | split; discriminate]. Qed.
+
+Lemma single_order_valid : forall k, valid_chain [k] ByRange.
+Proof. intro k. split; [repeat constructor; simpl; tauto | split; discriminate]. Qed.
+
+Lemma witness_uses : exists m, In m (u_methods uses_gen) /\ uses chain_gen uses_gen m <> [].
+Proof.
+  assert (H : existsb (fun m => negb (is_nil (uses chain_gen uses_gen m))) (u_methods uses_gen) = true)
+    by (vm_compute; reflexivity).
+  apply existsb_exists in H as [m [Hm Hb]]. exists m. split; [exact Hm|].
+  intro E. rewrite E in Hb. discriminate.
+Qed.
+
+Lemma witness_sufficient : exists m order,
+  In m (u_methods uses_gen) /\ valid_chain order ByRange /\ (forall k, In k (declared uses_gen m) -> In k order).
+Proof.
+  destruct (u_methods uses_gen) as [|m r] eqn:E; [vm_compute in E; discriminate|].
+  exists m, [Kern; Dist; Feat]. split; [left; reflexivity|]. split; [exact full_order_valid|].
+  intros k _. destruct k; simpl; auto.
+Qed.
+
+Lemma witness_missing : exists m order,
+  In m (u_methods uses_gen) /\ valid_chain order ByRange /\ ByRange <> ByMatrix /\
+  (exists k, In k (declared uses_gen m) /\ ~ In k order).
+Proof.
+  assert (H : existsb (fun m => negb (kinds_incl (declared uses_gen m) [Kern]) ||
+                               negb (kinds_incl (declared uses_gen m) [Dist])) (u_methods uses_gen) = true)
+    by (vm_compute; reflexivity).
+  apply existsb_exists in H as [m [Hm Hb]]. exists m.
+  apply orb_true_iff in Hb as [Hb|Hb]; apply negb_true_iff in Hb; apply kinds_incl_false in Hb.
+  - exists [Kern]. split; [exact Hm|]. split; [apply single_order_valid|]. split; [discriminate | exact Hb].
+  - exists [Dist]. split; [exact Hm|]. split; [apply single_order_valid|]. split; [discriminate | exact Hb].
+Qed.
+
+Lemma witness_ok : exists m slots, In m (u_methods uses_gen) /\ run_method_on uses_gen m slots = Ok.
+Proof.
+  destruct (reach chain_gen [Kern; Dist; Feat] ByRange) as [cls slots| | |] eqn:E; try (vm_compute in E; discriminate).
+  assert (H : existsb (fun m => outcome_eqb (run_method chain_gen uses_gen m [Kern; Dist; Feat] ByRange) Ok)
+                      (u_methods uses_gen) = true) by (vm_compute; reflexivity).
+  apply existsb_exists in H as [m [Hm Hb]]. exists m, slots. split; [exact Hm|].
+  apply outcome_eqb_eq in Hb. unfold run_method in Hb. rewrite E in Hb. exact Hb.
+Qed.
+
+Lemma witness_called : exists m c,
+  In m (u_methods uses_gen) /\ In c (may_call chain_gen uses_gen m [Kern; Dist; Feat] ByRange).
+Proof.
+  assert (H : existsb (fun m => negb (is_nil (may_call chain_gen uses_gen m [Kern; Dist; Feat] ByRange)))
+                      (u_methods uses_gen) = true) by (vm_compute; reflexivity).
+  apply existsb_exists in H as [m [Hm Hb]]. exists m.
+  destruct (may_call chain_gen uses_gen m [Kern; Dist; Feat] ByRange) as [|c r]; [discriminate|].
+  exists c. split; [exact Hm | left; reflexivity].
+Qed.
+
+Lemma witness_derefs : u_derefs uses_gen <> [] /\ u_deref_files uses_gen <> [].
+Proof. split; vm_compute; discriminate. Qed.
+
+Definition is_wrap_init (i : string * expr) : bool := match i with (_, EWrap _ _) => true | _ => false end.
+
+Lemma witness_wrappers : exists c slot w e,
+  find_class (t_classes chain_gen) (t_impl_class chain_gen) = Some c /\ In (slot, EWrap w e) (c_inits c).
+Proof.
+  destruct (find_class (t_classes chain_gen) (t_impl_class chain_gen)) as [c|] eqn:E; [|vm_compute in E; discriminate].
+  assert (H : existsb is_wrap_init (c_inits c) = true).
+  { revert E. vm_compute. intro E. inversion E. reflexivity. }
+  apply existsb_exists in H as [[slot e] [Hin Hb]].
+  destruct e; try discriminate. exists c, slot, w, e. split; [reflexivity | exact Hin].
 Qed.
